@@ -26,6 +26,18 @@ func (b *BaseBuilder) buildNodeExec(ctx any, n sql.Node, r sql.Row) (sql.RowIter
 		return b.buildExplain(ctx, n, r)
 	case *plan.Purge:
 		return b.buildPurge(ctx, n, r)
+	case *plan.Union:
+		return b.buildUnion(ctx, n, r)
+	case *plan.Concat:
+		return b.buildConcat(ctx, n, r)
+	case *plan.Seq:
+		return b.buildSeq(ctx, n, r)
+	case *plan.Any:
+		return b.buildAny(ctx, n, r)
+	case *plan.Trig:
+		return b.buildTrig(ctx, n, r)
+	case *plan.Opt:
+		return b.buildOpt(ctx, n, r)
 	}
 	return nil, io.EOF
 }
@@ -102,3 +114,94 @@ func (i *purgeIter) Next() (sql.Row, error) {
 func (i *purgeIter) Close() error { return nil }
 
 func dropOne(db sql.TableDropper, name string) error { return db.DropTable(name) }
+
+// ---- R2c
+
+func (b *BaseBuilder) buildUnion(ctx any, n *plan.Union, r sql.Row) (sql.RowIter, error) {
+	l, err := b.buildNodeExec(ctx, n.Left(), r)
+	if err != nil {
+		return nil, err
+	}
+	return &concatIter{cur: l, next: func() (sql.RowIter, error) { return b.buildNodeExec(ctx, n.Right(), r) }}, nil
+}
+
+func (b *BaseBuilder) buildConcat(ctx any, n *plan.Concat, r sql.Row) (sql.RowIter, error) {
+	l, err := b.buildNodeExec(ctx, n.Left(), r)
+	if err != nil {
+		return nil, err
+	}
+	return &concatIter{cur: l, next: func() (sql.RowIter, error) { return b.buildNodeExec(ctx, n.Right(), r) }}, nil
+}
+
+type concatIter struct {
+	cur  sql.RowIter
+	next func() (sql.RowIter, error)
+}
+
+func (i *concatIter) Next() (sql.Row, error) {
+	r, err := i.cur.Next()
+	if err == io.EOF && i.next != nil {
+		i.cur, err = i.next()
+		i.next = nil
+		if err != nil {
+			return nil, err
+		}
+		return i.cur.Next()
+	}
+	return r, err
+}
+func (i *concatIter) Close() error { return i.cur.Close() }
+
+func (b *BaseBuilder) runAll(ctx any, stmts []sql.Node, r sql.Row) (sql.RowIter, error) {
+	var last sql.RowIter
+	for _, s := range stmts {
+		it, err := b.buildNodeExec(ctx, s, r)
+		if err != nil {
+			return nil, err
+		}
+		last = it
+	}
+	return last, nil
+}
+
+func (b *BaseBuilder) buildSeq(ctx any, n *plan.Seq, r sql.Row) (sql.RowIter, error) {
+	return b.runAll(ctx, n.Children(), r)
+}
+
+func (b *BaseBuilder) buildAny(ctx any, n *plan.Any, r sql.Row) (sql.RowIter, error) {
+	return b.runAll(ctx, n.Stmts, r)
+}
+
+func (b *BaseBuilder) buildTrig(ctx any, n *plan.Trig, r sql.Row) (sql.RowIter, error) {
+	child, err := b.buildNodeExec(ctx, n.Stmt, r)
+	if err != nil {
+		return nil, err
+	}
+	return &trigIter{b: b, child: child, logic: n.Logic}, nil
+}
+
+type trigIter struct {
+	b     *BaseBuilder
+	child sql.RowIter
+	logic sql.Node
+}
+
+func (i *trigIter) Next() (sql.Row, error) {
+	r, err := i.child.Next()
+	if err != nil {
+		return nil, err
+	}
+	li, err := i.b.buildNodeExec(nil, i.logic, r)
+	if err != nil {
+		return nil, err
+	}
+	return r, li.Close()
+}
+func (i *trigIter) Close() error { return i.child.Close() }
+
+func (b *BaseBuilder) buildOpt(ctx any, n *plan.Opt, r sql.Row) (sql.RowIter, error) {
+	if n.Child == nil {
+		return &rows{}, nil
+	}
+	return b.buildNodeExec(ctx, n.Child, r)
+}
